@@ -214,7 +214,10 @@ def run_shard(sh):
         tabs.append(qcheck.long_table(sp_['rows'], 2))      # beyond the exhaustive bound: every ordered pair of rows as neighbours, 17 records
         jscases = []
         for qi, q in enumerate(sp_['qs'][sh['lo']:sh['hi']]):
-            text = refql.render(q, 'py', refql.Spelling(kwcase='mixed')) if qi % 5 == 3 else (refql.render(q, 'py', refql.Spelling(kwcase='lower')) if qi % 5 == 1 else refql.render(q))     # keywords are case-insensitive: a fifth of the queries in mixed case (Desc, dIsTiNcT), a fifth in lower case
+            if qi % 5 == 2:
+                text = refql.render(q, 'py', refql.Spelling(sep='   ' if qi % 10 == 2 else '\t ', clause_perm=tuple(reversed(refql.clause_names(q)))))      # runs of blanks between the clauses, ORDER BY ... DESC followed by another clause
+            else:
+                text = refql.render(q, 'py', refql.Spelling(kwcase='mixed')) if qi % 5 == 3 else (refql.render(q, 'py', refql.Spelling(kwcase='lower')) if qi % 5 == 1 else refql.render(q))     # keywords are case-insensitive: a fifth of the queries in mixed case (Desc, dIsTiNcT), a fifth in lower case
             B = sp_['B'] if q['join'] is not None else None
             for A in tabs:
                 n = q['top'][1] if q['top'] else None
